@@ -1,8 +1,7 @@
 """Planted breaks for C47 (a successful mutable publish is recoverable).
 
-NOTE: on the tree as of this writing C47 may already report the genuine key
-`update-retried-after-uncoordinated-write-error-loses-the-written-data`; judge a break as caught only when
-one of the success-* / published-version-* / acknowledged-share-* / no-error-reported-* keys appears.
+The genuine finding C47 reported (SDMF update retried after an UncoordinatedWriteError dropped the new data) is
+repaired in /repo (8204975); on the current tree the check exits 0 and these breaks are judged directly.
 """
 BREAKS = []
 
@@ -39,7 +38,12 @@ brk("c47-writers-counted-not-shnums", "mutable/publish.py",
     "        num_shnums = len(self.writers)\n",
     "        num_shnums = sum(len(ws) for ws in self.writers.values()) + len(self.bad_servers) + (1 if self._last_failure else 0)\n",
     "after a failure one more share number than really placed is counted")
-# Documentation (not in BREAKS):
-#  * layout.py SDMFSlotWriteProxy.finish_publishing sending no test vector: another writer's version is clobbered
-#    silently, but every write is acknowledged and nothing surprising is read back on foreign share numbers, so the
-#    C47 statement still holds - that is a C12 break (concurrent writers detected).
+brk("c47-must-not-exist-vector-lost", "storage_client.py",
+    "                [(start, length, b\"eq\", data) for (start, length, data) in value[0]],",
+    "                [(start, len(data), b\"eq\", data) for (start, length, data) in value[0]],",
+    "the 'share must not exist yet' test vector (0, 1, b'') goes out as a zero-length read: a homeless share is written "
+    "over a foreign share of that number (seeded C47-5)")
+brk("c47-sdmf-no-test-vector", "mutable/layout.py",
+    "        tw_vectors = {}\n        tw_vectors[self.shnum] = (self._testvs, datavs, None)\n        return self._storage_server.slot_testv_and_readv_and_writev(\n            self._storage_index,\n            self._secrets,\n            tw_vectors,\n            # TODO is it useful to read something?",
+    "        tw_vectors = {}\n        tw_vectors[self.shnum] = ([], datavs, None)\n        return self._storage_server.slot_testv_and_readv_and_writev(\n            self._storage_index,\n            self._secrets,\n            tw_vectors,\n            # TODO is it useful to read something?",
+    "SDMF writes carry no test vector: another writer's version on the written share number is replaced and success reported")
